@@ -60,7 +60,9 @@ async fn serve() {
             "dedup" => dedup(&req).await,
             "filters" => filters(&req),
             "snapshot" => snapshot_cmd(&req).await,
+            "web" => web_cmd(&req).await,
             "tui" => tui(&req),
+            "tui2" => tui2(&req),
             "source" => source(&req),
             "source_toml" => source_toml(&req),
             other => json!({"error": format!("unknown command {other}")}),
@@ -311,6 +313,147 @@ async fn snapshot_cmd(req: &Value) -> Value {
     json!({"cmd": "snapshot", "steps": steps})
 }
 
+// ------------------------------------------------- web / history (C12 extension)
+
+async fn reply_body(reply: warp::reply::Json) -> Value {
+    use warp::Reply;
+    let resp = reply.into_response();
+    let status = resp.status().as_u16();
+    match warp::hyper::body::to_bytes(resp.into_body()).await {
+        Ok(b) => match serde_json::from_slice::<Value>(&b) {
+            Ok(v) => json!({"status": status, "body": v}),
+            Err(e) => json!({"status": status, "error": e.to_string()}),
+        },
+        Err(e) => json!({"status": status, "error": e.to_string()}),
+    }
+}
+
+/// {"cmd":"web","reference":[lat,lon]|null,"toml":"df_filter = [..]\naircraft_filter = [..]",
+///  "history":bool,"records":[{"ts":f64,"frame":hex,"serial":n}],
+///  "probe_at":[step,..],"queries":[{"icao24":s,"since":f64|null}]}
+/// Mirrors the body of the main loop for every record (decode, decode_position,
+/// update_snapshot, Filters::is_in, serialisation, store_history unless "history" is false,
+/// which stands for history_expire = Some(0)); after each step listed in probe_at it
+/// calls the REST handlers web::icao24, web::all, web::sensors and web::track (one call per
+/// query) on the application state and returns their JSON bodies.
+async fn web_cmd(req: &Value) -> Value {
+    let app = std::sync::Arc::new(Mutex::new(new_app(0, 0)));
+    let aircraftdb: BTreeMap<String, crate::aircraftdb::Aircraft> = BTreeMap::new();
+    let mut aircraft: BTreeMap<ICAO, AircraftState> = BTreeMap::new();
+    let reference0: Option<Position> = req["reference"].as_array().map(|a| Position {
+        latitude: a[0].as_f64().unwrap_or(0.),
+        longitude: a[1].as_f64().unwrap_or(0.),
+    });
+    let filters: Filters = match toml::from_str(req["toml"].as_str().unwrap_or("")) {
+        Ok(f) => f,
+        Err(e) => return json!({"error": format!("toml: {e}")}),
+    };
+    let keep_history = req["history"].as_bool().unwrap_or(true);
+    let update_reference: rs1090::decode::cpr::UpdateIf = None;
+    let records = req["records"].as_array().cloned().unwrap_or_default();
+    let probe_at: Vec<u64> = req["probe_at"]
+        .as_array()
+        .map(|a| a.iter().filter_map(|x| x.as_u64()).collect())
+        .unwrap_or_default();
+    let queries = req["queries"].as_array().cloned().unwrap_or_default();
+    let mut steps = Vec::new();
+    for (k, r) in records.iter().enumerate() {
+        let frame = hex::decode(r["frame"].as_str().unwrap_or("")).unwrap_or_default();
+        let ts = r["ts"].as_f64().unwrap_or(0.0);
+        let serial = r["serial"].as_u64().unwrap_or(1);
+        let mut msg = TimedMessage {
+            timestamp: ts,
+            frame,
+            message: None,
+            metadata: vec![SensorMetadata {
+                system_timestamp: ts,
+                gnss_timestamp: None,
+                nanoseconds: None,
+                rssi: None,
+                serial,
+                name: None,
+            }],
+            decode_time: None,
+        };
+        if let Ok((_, m)) = Message::from_bytes((&msg.frame, 0)) {
+            msg.message = Some(m);
+        }
+        if let Some(message) = &mut msg.message {
+            match &mut message.df {
+                ExtendedSquitterADSB(adsb) => match adsb.message {
+                    ME::BDS05(_) | ME::BDS06(_) => {
+                        let mut reference = reference0;
+                        decode_position(
+                            &mut adsb.message,
+                            msg.timestamp,
+                            &adsb.icao24,
+                            &mut aircraft,
+                            &mut reference,
+                            &update_reference,
+                        );
+                    }
+                    _ => {}
+                },
+                ExtendedSquitterTisB { cf, .. } => match cf.me {
+                    ME::BDS05(_) | ME::BDS06(_) => {
+                        let mut reference = reference0;
+                        decode_position(
+                            &mut cf.me,
+                            msg.timestamp,
+                            &cf.aa,
+                            &mut aircraft,
+                            &mut reference,
+                            &update_reference,
+                        )
+                    }
+                    _ => {}
+                },
+                _ => {}
+            }
+        }
+        snapshot::update_snapshot(&app, &mut msg, &aircraftdb).await;
+        let is_in = Filters::is_in(&filters, &msg);
+        let js = serde_json::to_string(&msg)
+            .ok()
+            .and_then(|s| serde_json::from_str::<Value>(&s).ok());
+        let decoded = msg.message.is_some();
+        if keep_history && is_in {
+            snapshot::store_history(&app, msg, &aircraftdb).await;
+        }
+        let mut step = json!({"decoded": decoded, "json": js, "is_in": is_in});
+        if probe_at.contains(&((k + 1) as u64)) {
+            let home = match crate::web::icao24(&app).await {
+                Ok(r) => reply_body(r).await,
+            };
+            let all = match crate::web::all(&app).await {
+                Ok(r) => reply_body(r).await,
+            };
+            let sensors = match crate::web::sensors(&app).await {
+                Ok(r) => reply_body(r).await,
+            };
+            let mut tracks = Vec::new();
+            for q in queries.iter() {
+                let mut qv = json!({"icao24": q["icao24"]});
+                if q["since"].is_number() {
+                    qv["since"] = q["since"].clone();
+                }
+                let res = match serde_json::from_value::<crate::web::TrackQuery>(qv) {
+                    Ok(tq) => match crate::web::track(&app, tq).await {
+                        Ok(r) => reply_body(r).await,
+                    },
+                    Err(e) => json!({"error": e.to_string()}),
+                };
+                tracks.push(json!({"query": q, "reply": res}));
+            }
+            let keys: Vec<String> = app.lock().await.state_vectors.keys().cloned().collect();
+            step["probe"] = json!({"home": home, "all": all, "sensors": sensors,
+                                   "tracks": tracks, "keys": keys});
+        }
+        steps.push(step);
+    }
+    json!({"cmd": "web", "steps": steps})
+}
+
 // ------------------------------------------------------------------ tui (C17)
 
 fn key_of(name: &str) -> Option<Event> {
@@ -463,6 +606,283 @@ fn tui(req: &Value) -> Value {
                         Err(p) => outs.push(json!({"panic": p})),
                     },
                 }
+            }
+        }
+        reply["fan"] = Value::Array(outs);
+    }
+    reply
+}
+
+// ------------------------------------------- tui2: keys, data and rendering (C17)
+
+/// One aircraft of the `tui2` command, as the request describes it.
+fn tui2_vector(id: u64, d: &Value, now0: u64) -> snapshot::StateVectors {
+    let cur = snapshot::Snapshot {
+        icao24: format!("{:06x}", id),
+        firstseen: now0.saturating_sub(d["first_age"].as_u64().unwrap_or(0)),
+        lastseen: now0.saturating_sub(d["last_age"].as_u64().unwrap_or(0)),
+        callsign: d["callsign"].as_str().map(|s| s.to_string()),
+        registration: None,
+        typecode: None,
+        squawk: None,
+        latitude: None,
+        longitude: None,
+        altitude: d["altitude"].as_u64().map(|v| v as u16),
+        selected_altitude: None,
+        groundspeed: None,
+        vertical_rate: d["vrate"].as_i64().map(|v| v as i16),
+        track: None,
+        ias: None,
+        tas: None,
+        mach: None,
+        roll: None,
+        heading: None,
+        nacp: None,
+        count: d["count"].as_u64().unwrap_or(0) as usize,
+        metadata: vec![],
+    };
+    snapshot::StateVectors { cur, hist: vec![] }
+}
+
+/// What the terminal shows after a draw: the aircraft of the table rows from top to
+/// bottom (first column) and the index of the highlighted row (-1: none).
+struct Tui2Screen {
+    rows: Vec<u64>,
+    highlighted: i64,
+}
+
+fn tui2_id(token: &str) -> Option<u64> {
+    if token.len() == 6 && token.chars().all(|c| c.is_ascii_hexdigit() && !c.is_ascii_uppercase()) {
+        u64::from_str_radix(token, 16).ok()
+    } else {
+        None
+    }
+}
+
+fn tui2_read_screen(buf: &ratatui::buffer::Buffer) -> Tui2Screen {
+    let mut rows = Vec::new();
+    let mut highlighted = -1;
+    for y in buf.area.y..buf.area.y + buf.area.height {
+        let mut line = String::new();
+        for x in buf.area.x..buf.area.x + buf.area.width {
+            if let Some(c) = buf.cell((x, y)) {
+                line.push_str(c.symbol());
+            }
+        }
+        // the highlight symbol sits left of the first column (the scrollbar uses it too)
+        let marked = line.chars().take(4).any(|c| c == '\u{2588}');
+        let text: String = line
+            .chars()
+            .map(|c| if c == '\u{2588}' || c == '\u{2502}' { ' ' } else { c })
+            .collect();
+        if let Some(id) = text.split_whitespace().next().and_then(tui2_id) {
+            if marked {
+                highlighted = rows.len() as i64;
+            }
+            rows.push(id);
+        }
+    }
+    Tui2Screen { rows, highlighted }
+}
+
+fn tui2_state(app: &Jet1090, screen: &Tui2Screen, na: u64, now0: u64) -> Value {
+    let mut st = tui_state(app);
+    st["query"] = json!(app.search_query.chars().map(|c| c.to_string()).collect::<Vec<String>>());
+    st["items"] = json!(app
+        .items
+        .iter()
+        .map(|s| i64::from_str_radix(s, 16).unwrap_or(-1))
+        .collect::<Vec<i64>>());
+    st["rows"] = json!(screen.rows);
+    st["hl"] = json!(screen.highlighted);
+    let mut ac = Vec::new();
+    for id in 1..=na {
+        match app.state_vectors.get(&format!("{:06x}", id)) {
+            Some(sv) => ac.push(json!({
+                "on": true,
+                "cs": sv.cur.callsign.clone().unwrap_or("none".to_string()),
+                "alt": sv.cur.altitude.map(|v| v as i64).unwrap_or(-1),
+                "vr": sv.cur.vertical_rate.map(|v| v as i64).unwrap_or(-100000),
+                "count": sv.cur.count,
+                "first": now0.saturating_sub(sv.cur.firstseen),
+                "last": now0.saturating_sub(sv.cur.lastseen),
+            })),
+            None => ac.push(json!({"on": false, "cs": "none", "alt": -1, "vr": -100000,
+                                   "count": 0, "first": 0, "last": 0})),
+        }
+    }
+    st["ac"] = Value::Array(ac);
+    st
+}
+
+struct Tui2World {
+    app: Mutex<Jet1090>,
+    terminal: ratatui::Terminal<ratatui::backend::TestBackend>,
+    screen: Tui2Screen,
+}
+
+fn tui2_world() -> Tui2World {
+    Tui2World {
+        app: Mutex::new(new_app(0, 100)),
+        terminal: tui2_terminal(),
+        screen: Tui2Screen { rows: vec![], highlighted: -1 },
+    }
+}
+
+fn tui2_terminal() -> ratatui::Terminal<ratatui::backend::TestBackend> {
+    ratatui::Terminal::new(ratatui::backend::TestBackend::new(120, 12)).expect("test terminal")
+}
+
+/// Jet1090 is not Clone: a field-by-field copy, so that several steps can be tried from
+/// the same state without replaying the script that led to it.
+fn tui2_copy(w: &Tui2World) -> Tui2World {
+    let a = w.app.try_lock().unwrap();
+    let mut state_vectors = BTreeMap::new();
+    for (k, sv) in a.state_vectors.iter() {
+        let c = &sv.cur;
+        let cur = snapshot::Snapshot {
+            icao24: c.icao24.clone(),
+            firstseen: c.firstseen,
+            lastseen: c.lastseen,
+            callsign: c.callsign.clone(),
+            registration: c.registration.clone(),
+            typecode: c.typecode.clone(),
+            squawk: c.squawk,
+            latitude: c.latitude,
+            longitude: c.longitude,
+            altitude: c.altitude,
+            selected_altitude: c.selected_altitude,
+            groundspeed: c.groundspeed,
+            vertical_rate: c.vertical_rate,
+            track: c.track,
+            ias: c.ias,
+            tas: c.tas,
+            mach: c.mach,
+            roll: c.roll,
+            heading: c.heading,
+            nacp: c.nacp,
+            count: c.count,
+            metadata: vec![],
+        };
+        state_vectors.insert(k.clone(), snapshot::StateVectors { cur, hist: vec![] });
+    }
+    let app = Jet1090 {
+        sensors: BTreeMap::new(),
+        items: a.items.clone(),
+        state: a.state.clone(),
+        scroll_state: a.scroll_state,
+        should_quit: a.should_quit,
+        should_clear: a.should_clear,
+        state_vectors,
+        sort_key: match a.sort_key {
+            SortKey::CALLSIGN => SortKey::CALLSIGN,
+            SortKey::ALTITUDE => SortKey::ALTITUDE,
+            SortKey::VRATE => SortKey::VRATE,
+            SortKey::COUNT => SortKey::COUNT,
+            SortKey::FIRST => SortKey::FIRST,
+            SortKey::LAST => SortKey::LAST,
+        },
+        sort_asc: a.sort_asc,
+        width: a.width,
+        is_search_mode: a.is_search_mode,
+        search_query: a.search_query.clone(),
+    };
+    Tui2World {
+        app: Mutex::new(app),
+        terminal: tui2_terminal(),
+        screen: Tui2Screen { rows: w.screen.rows.clone(), highlighted: w.screen.highlighted },
+    }
+}
+
+/// Applies one step: {"key":K} -> the real update(); {"render":true} -> the real
+/// table::build_table through Terminal::draw (as main()'s loop does after update());
+/// {"set":id, ...} / {"remove":id} -> the driver changes state_vectors (what the decoding
+/// task does between two frames).  Err(text) = the code under test panicked.
+fn tui2_step(w: &mut Tui2World, step: &Value, now0: u64) -> Result<Option<bool>, String> {
+    if let Some(name) = step["key"].as_str() {
+        let ev = key_of(name).ok_or(format!("!unknown key {name}"))?;
+        let app = &w.app;
+        return catch_unwind(AssertUnwindSafe(|| {
+            let mut guard = app.try_lock().unwrap();
+            crate::update(&mut guard, ev).is_ok()
+        }))
+        .map(Some)
+        .map_err(panic_text);
+    }
+    if let Some(id) = step["set"].as_u64() {
+        let mut guard = w.app.try_lock().unwrap();
+        guard
+            .state_vectors
+            .insert(format!("{:06x}", id), tui2_vector(id, step, now0));
+        return Ok(None);
+    }
+    if let Some(id) = step["remove"].as_u64() {
+        let mut guard = w.app.try_lock().unwrap();
+        guard.state_vectors.remove(&format!("{:06x}", id));
+        return Ok(None);
+    }
+    if step["render"].as_bool() == Some(true) {
+        let app = &w.app;
+        let terminal = &mut w.terminal;
+        let drawn = catch_unwind(AssertUnwindSafe(|| {
+            let mut guard = app.try_lock().unwrap();
+            terminal
+                .draw(|frame| crate::table::build_table(frame, &mut guard))
+                .is_ok()
+        }))
+        .map_err(panic_text)?;
+        w.screen = tui2_read_screen(w.terminal.backend().buffer());
+        return Ok(Some(drawn));
+    }
+    Err("!unknown step".to_string())
+}
+
+fn tui2_run(w: &mut Tui2World, steps: &[Value], na: u64, now0: u64, record: bool) -> (Vec<Value>, bool) {
+    let mut states = Vec::new();
+    for step in steps.iter() {
+        match tui2_step(w, step, now0) {
+            Ok(ok) => {
+                if record {
+                    let mut st = tui2_state(&w.app.try_lock().unwrap(), &w.screen, na, now0);
+                    st["ok"] = json!(ok.unwrap_or(true));
+                    states.push(st);
+                }
+            }
+            Err(p) => {
+                if let Some(msg) = p.strip_prefix('!') {
+                    states.push(json!({"error": msg}));
+                } else {
+                    states.push(json!({"panic": p}));
+                }
+                return (states, false);
+            }
+        }
+    }
+    (states, true)
+}
+
+/// {"cmd":"tui2","na":N,"steps":[step,...],"fan":[step,...]}: as `tui`, for scripts that
+/// interleave keys, data changes and draws.  Ages are relative to the start of the request.
+fn tui2(req: &Value) -> Value {
+    let na = req["na"].as_u64().unwrap_or(0);
+    let steps = req["steps"].as_array().cloned().unwrap_or_default();
+    let now0 = std::time::SystemTime::now()
+        .duration_since(std::time::UNIX_EPOCH)
+        .map(|d| d.as_secs())
+        .unwrap_or(0);
+    let mut w = tui2_world();
+    let init = tui2_state(&w.app.try_lock().unwrap(), &w.screen, na, now0);
+    let fan = req["fan"].as_array();
+    let (states, complete) = tui2_run(&mut w, &steps, na, now0, fan.is_none());
+    let mut reply = json!({"cmd": "tui2", "init": init, "states": states});
+    if let Some(fan) = fan {
+        let mut outs = Vec::new();
+        if complete {
+            reply["before"] = tui2_state(&w.app.try_lock().unwrap(), &w.screen, na, now0);
+            for f in fan.iter() {
+                let mut fresh = tui2_copy(&w);
+                let (mut one, _) = tui2_run(&mut fresh, std::slice::from_ref(f), na, now0, true);
+                outs.push(one.pop().unwrap_or(json!({"error": "no outcome"})));
             }
         }
         reply["fan"] = Value::Array(outs);
